@@ -1275,7 +1275,34 @@ def lattice_cases(ctx, n):
             terms.append(f'(CSegBBox {coq(l)} {img_coq(segm1.data)} {box_term(bbox_tuple(bb1))})')
             descs.append({'kind': 'seg_bbox', 'label': l, 's': segm1.data.tolist(), 'impl': bbox_tuple(bb1)})
             ctx.stat('lattice', 'seg_bbox', 2)
+        # ---- SourceCatalog.background_centroid on a block of equal pixels (centroid on the half-pixel lattice)
+        by, bx = rng.randint(2, 8), rng.randint(2, 8)
+        while bx == by:
+            bx = rng.randint(2, 8)
+        bkg = np.array([[rng.randint(-9, 9) for _ in range(bx)] for _ in range(by)])
+        hh, ww = rng.choice([1, 2]), rng.choice([1, 2])
+        y0, x0 = rng.randint(0, by - hh - (0 if hh == 2 else 1)), rng.randint(0, bx - ww - (0 if ww == 2 else 1))
+        seg2 = np.zeros((by, bx), int)
+        seg2[y0:y0 + hh, x0:x0 + ww] = 1
+        got = float(np.ravel(val(SourceCatalog(seg2.astype(float), SegmentationImage(seg2),
+                                               background=bkg.astype(float)).background_centroid))[0])
+        terms.append(f'(CBilinear {img_coq(bkg)} {coq(y0)} {coq(x0)} {coq(hh - 1)} {coq(ww - 1)} 2 {coq(int(round(4 * got)))})')
+        descs.append({'kind': 'background_centroid', 'background': bkg.tolist(), 'block': (y0, x0, hh, ww), 'impl': got})
+        ctx.stat('lattice', 'background_centroid')
     return terms, descs
+
+
+def background_centroid_relation(desc, dy=1, dx=3):
+    """the covariance relation on a lattice case of background_centroid: True if it holds"""
+    from photutils.segmentation import SegmentationImage, SourceCatalog
+    bkg = np.array(desc['background'], float)
+    y0, x0, hh, ww = desc['block']
+    seg = np.zeros(bkg.shape, int)
+    seg[y0:y0 + hh, x0:x0 + ww] = 1
+    T = Shift(dy, dx, 2, 1)
+    a = SourceCatalog(seg.astype(float), SegmentationImage(seg), background=bkg).background_centroid
+    b = SourceCatalog(T.img(seg).astype(float), SegmentationImage(T.img(seg)), background=T.img(bkg, 0.0)).background_centroid
+    return same(b, a, False, rtol=1e-9, atol=1e-9), js(a), js(b)
 
 
 # ======================================================================================
@@ -1342,6 +1369,14 @@ def run(ctx):
     for d in descs:
         ctx.count_case(d, True)
     for i in bad[:10]:
+        if descs[i]['kind'] == 'background_centroid':
+            holds, a, b = background_centroid_relation(descs[i])
+            if not holds:
+                ctx.violation('SourceCatalog:shift:background_centroid unchanged',
+                              'SourceCatalog: relation "background_centroid unchanged" fails under shift',
+                              {'lattice_case': descs[i], 'offset': (1, 3), 'original': a, 'canvas': b,
+                               'model': ctx.coq_eval_term(['C03_Model'], f'model_out {terms[i]}')})
+                continue
         ctx.violation('correspondence:C03_Model.check_case:' + descs[i]['kind'],
                       'model and implementation disagree on an exact-lattice case',
                       {'case': descs[i], 'model': ctx.coq_eval_term(['C03_Model'], f'model_out {terms[i]}')},
@@ -1405,9 +1440,14 @@ def run(ctx):
 
 def replay(obj):
     r = obj['replay']
+    if 'lattice_case' in r and r['lattice_case'].get('kind') == 'background_centroid':
+        holds, a, b = background_centroid_relation(r['lattice_case'])
+        print('background_centroid original', a, 'canvas', b)
+        print('the recorded relation holds on this input' if holds else 'property FAILS on this input')
+        return 0 if holds else 1
     if 'group' not in r:
         print('no scene to replay (lattice / correspondence finding):', obj.get('what'))
-        print(r)
+        print(str(r)[:3000])
         return 1
     sc = make_scene(r['scene_seed'], dyadic=r['dyadic'])
     T = transform_from(r['transform'])
